@@ -330,29 +330,77 @@ func (fr *frame) concKey(k value) value {
 	return k
 }
 
-// concKeyIn resolves a (possibly symbolic) lookup key against map m: one
-// branch per existing entry, then "absent".
+// symKeyBox is a map entry whose key is symbolic. Boxes are compared by
+// identity by the host map; the path condition guarantees that the keys of
+// distinct entries differ.
+type symKeyBox struct {
+	k  value
+	id int
+}
+
+func isSymKey(k value) bool {
+	switch k.(type) {
+	case sym, symstr:
+		return true
+	}
+	return false
+}
+
+func keyEqTerm(a, b value) *smt.Term {
+	if isStringVal(a) || isStringVal(b) {
+		if !isStringVal(a) || !isStringVal(b) {
+			return smt.False
+		}
+		return strEqTerm(a, b)
+	}
+	ka, oka := kindOf(a)
+	kb, okb := kindOf(b)
+	if !oka || !okb || ka != kb {
+		return smt.False
+	}
+	return smt.Eq(termOf(a), termOf(b))
+}
+
+func sortedBoxes(m map[value]value) []*symKeyBox {
+	var bs []*symKeyBox
+	for k := range m {
+		if b, ok := k.(*symKeyBox); ok {
+			bs = append(bs, b)
+		}
+	}
+	sort.Slice(bs, func(i, j int) bool { return bs[i].id < bs[j].id })
+	return bs
+}
+
+// concKeyIn resolves a (possibly symbolic) key against map m: it returns the
+// host-map key of the entry that equals k on this path (forking once per
+// candidate entry), or k itself / absentKey{} when no entry matches.
 func (fr *frame) concKeyIn(m value, k value) value {
+	mm, ok := m.(map[value]value)
+	if !ok {
+		return fr.concKey(k)
+	}
+	switch k.(type) {
+	case structure, array, iface:
+		return fr.concKey(k)
+	}
+	// symbolic entries first, in insertion order
+	for _, b := range sortedBoxes(mm) {
+		if fr.ctx().Branch(keyEqTerm(k, b.k), "map-lookup-symbolic-entry") {
+			return b
+		}
+	}
+	if !isSymKey(k) {
+		return k
+	}
 	switch kk := k.(type) {
 	case sym:
-		mm, ok := m.(map[value]value)
-		if !ok {
-			return fr.concKey(k)
-		}
-		// try the model's value first to keep forks cheap
-		keys := sortedMapKeys(mm, kk.k)
-		for _, ck := range keys {
+		for _, ck := range sortedMapKeys(mm, kk.k) {
 			if fr.ctx().Branch(smt.Eq(kk.t, termOf(ck)), "map-lookup") {
 				return ck
 			}
 		}
-		// absent: every remaining value behaves the same for a lookup
-		return absentKey{}
 	case symstr:
-		mm, ok := m.(map[value]value)
-		if !ok {
-			return fr.concKey(k)
-		}
 		var keys []string
 		for ck := range mm {
 			if s, ok := ck.(string); ok && len(s) == len(kk) {
@@ -365,10 +413,22 @@ func (fr *frame) concKeyIn(m value, k value) value {
 				return ck
 			}
 		}
-		// absent
-		return absentKey{}
 	}
-	return fr.concKey(k)
+	return absentKey{}
+}
+
+// mapUpdateKey returns the host-map key under which m[k] = v must be stored.
+func (fr *frame) mapUpdateKey(m value, k value) value {
+	mm, ok := m.(map[value]value)
+	if !ok {
+		return fr.concKey(k)
+	}
+	hk := fr.concKeyIn(mm, k)
+	if _, absent := hk.(absentKey); absent {
+		fr.i.boxSeq++
+		return &symKeyBox{k: k, id: fr.i.boxSeq}
+	}
+	return hk
 }
 
 type absentKey struct{}
